@@ -27,4 +27,34 @@ CLAIMS = {
        "oracle: no panic, no wedge.",
   note=COMMON_NOTE + "Stack bytes are not modelled, only recursion depth; the lane runs the real parser on 20000-level nests. Driver-level clauses (pending operations observe the decoding error; "
        "unknown operation under a live search id) belong to the connection model and are checked in C04's lane."),
+ "C03": dict(
+  text="Proved for the model of the result conversion and of the repaired decoder: for every well-formed response of the 8 kinds (result code < 2^32, UTF-8 matched DN / text / referral URIs, "
+       "optional SASL creds and extended name/value) the converted struct equals the server's fields (c03_result_of_spec); composed with C06/C07, this holds from ANY definite-length encoding of the whole "
+       "LDAPMessage, with response controls (OID, criticality absent=false, value absent=none) delivered in order (c03_from_the_wire, c03_from_the_wire_with_controls); success/non_error/equal/"
+       "CompareResult::non_error are decided for every code (four iff-lemmas). Tie to the code: LdapResult::from on generated responses and the helper methods on rc 0..300 + boundaries, compared with the "
+       "extracted model; the documented helper semantics are an independent oracle.",
+  note=COMMON_NOTE + "Malformed LDAPResults are outside the property (agreement model/code only; see finding F5). Extended name/value and response controls as returned by real operations are exercised in the connection-level lanes."),
+ "C08": dict(
+  text="Proved for the model of filter.rs (a PEG over bytes, with the F14 repair): completeness - every string of the RFC 4515 grammar (plus bare item, (&), (|)) for a syntax tree, under every escaping choice, "
+       "parses to the RFC 4511 filter of that tree (c08_complete; excluded only the shape a:dn:=v read as a rule literally named dn, on which the RFC grammar itself is ambiguous: c08_dn_rule_ambiguity); "
+       "soundness - every accepted string is a string of the (lenient) grammar for some tree and the output is that tree's filter (c08_sound), hence all the listed rejections; the parser returns an option, never panics. "
+       "Tie to the code: exhaustive/strided short strings over a 21-symbol alphabet, rendered trees with every item kind and escaping, mutations and random bytes through ldap3::parse_filter, BER compared with the "
+       "extracted model; an independent split-based RFC 4515 reader in the harness decides accept/reject and the expected BER.",
+  note=COMMON_NOTE + "Modelled, not verified: nom's combinators as ordered choice / greedy repetition. parse_matched_values (RFC 3876 variant) is outside this property."),
+ "C09": dict(
+  text="Proved: ldap_escape(v) is a valid value encoding of v (escape_is_ValEnc), hence by C08's completeness it is inert as the assertion value of =, >=, <=, ~=, extensible and substring items "
+       "(six c09_filter_inert_* theorems); ldap_unescape(ldap_escape v) = v; dn_escape(v) followed by end/','/'+' is read back as exactly v by an RFC 4514 value reader (c09_dn_inert); strings needing no escaping are "
+       "returned unchanged (borrowed). Tie to the code: the three functions on every ASCII string of length <=1, sampled length 2-3, special-character triples and random Unicode, compared with the model; oracles embed the "
+       "output in filters (parsed by the real parser) and DNs (independent RFC 4514 reader).",
+  note=COMMON_NOTE + "Inputs are Rust strings (UTF-8); the model theorems hold for arbitrary bytes."),
+ "C15": dict(
+  text="Proved for the model of SearchEntry::construct over the real UTF-8 classifier: DN equal; every attribute in exactly one map; text map with values in order iff all values are UTF-8, otherwise the binary map holds a "
+       "permutation of the values; no other key (c15_construct). Tie to the code: generated entries (valid/invalid/mixed UTF-8, boundary sequences, repeated names, malformed) through SearchEntry::construct with maps sorted, "
+       "and Utf8.valid vs std::str::from_utf8 on boundary byte strings; an independent oracle evaluates the property on every well-formed entry.",
+  note=COMMON_NOTE + "HashMap is modelled as an association list; duplicate attribute names are outside the theorem (compared for agreement only)."),
+ "C20": dict(
+  text="Proved for the model of get_url_params: formatting base, attribute list, scope, filter (and extensions with criticality marks, values percent-encoded) as an RFC 4516 URL and parsing returns the same components "
+       "(c20_roundtrip, c20_roundtrip_ext, pdec_penc) for every byte value. Tie to the code: URLs formatted by the harness from random components over all 16 presence subsets, extension spellings, hostile variants, "
+       "compared with the model from the same Url::path()/query(); an independent RFC 4516 reader is the oracle (defaults, three error classes, unknown non-critical ignored).",
+  note=COMMON_NOTE + "Known finding F19: percent-encoded attribute descriptions are not decoded (public API type prevents a small repair). The url / percent-encoding crates are oracles (model starts from path/query)."),
 }
